@@ -59,6 +59,12 @@ def monitor(case):
                 destroyed = any(int(t[7]) == a for t in acf)
                 if not (closed or destroyed):
                     return idx, "holding of asset %d in account %d vanished without close-out or destroy" % (a, w)
+                # exactly one asset transaction of this account on this asset in the group: the amount it closed is what it held
+                mine = [t for t in axf if int(t[1]) == w or int(t[9]) == w or int(t[10]) == w or int(t[11]) == w]
+                if hp[1] == "1" and int(hp[0]) > 0 and not frz and not destroyed and len(mine) == 1 and int(mine[0][1]) == w and int(mine[0][8]) == 0:
+                    cr = prev.creator.get(a)
+                    if mine[0][11] != cr:
+                        return idx, "the frozen holding (%s units) of asset %d in account %d was closed out to %s, which is not the creator %s" % (hp[0], a, w, mine[0][11], cr)
             if hp is not None and hc is not None and hp[1] == "1" and hc[1] == "1" and hp[0] != hc[0] and not frz:
                 cr = prev.creator.get(a)
                 clawback = any(int(t[9]) != 0 for t in axf)
